@@ -238,3 +238,21 @@ def rpn(text: str, env: dict[str, float]) -> float:
     if len(stack) != 1:
         raise SyntaxError("postfix leaves %d values" % len(stack))
     return stack[0]
+
+
+def postfix_well_typed(text: str) -> bool:
+    """Statement's typing: results of and/or/! are used only under logical operators or as the final result."""
+    stack: list[bool] = []
+    for tok in text.split():
+        if tok in ARITY:
+            n = ARITY[tok]
+            if len(stack) < n:
+                return False
+            args = stack[len(stack) - n:]
+            del stack[len(stack) - n:]
+            if tok not in LOGICAL and any(args):
+                return False
+            stack.append(tok in LOGICAL)
+        else:
+            stack.append(False)
+    return len(stack) == 1
